@@ -13,6 +13,8 @@ class ConstantExpressionEvaluator:
             value = self.eval_binop(expr)
         elif isinstance(expr, expressions.UnaryOperator):
             value = self.eval_unop(expr)
+        elif isinstance(expr, expressions.TernaryOperator):
+            value = self.eval_ternop(expr)
         elif isinstance(expr, expressions.VariableAccess):
             value = self.eval_variable_access(expr)
         elif isinstance(expr, expressions.NumericLiteral):
@@ -34,6 +36,20 @@ class ConstantExpressionEvaluator:
             value = expr
         else:  # pragma: no cover
             raise NotImplementedError(str(expr))
+        return value
+
+    def to_integer_type(self, typ, value):
+        """Bring an integer result into the range of the given type.
+
+        Integer arithmetic in C happens in the type of the expression:
+        unsigned types wrap modulo 2^n, signed types are two's complement.
+        """
+        if isinstance(value, int) and typ.is_integer_or_enum:
+            bits = 8 * self.context.sizeof(typ)
+            value &= (1 << bits) - 1
+            # an enum is stored as an int:
+            if (typ.is_signed or not typ.is_integer) and value >> (bits - 1):
+                value -= 1 << bits
         return value
 
     def eval_variable_access(self, expr):
@@ -88,11 +104,22 @@ class ConstantExpressionEvaluator:
                 "-": lambda x: -x,
                 "~": lambda x: ~x,
             }
-            value = op_map[expr.op](a)
+            value = self.to_integer_type(expr.typ, op_map[expr.op](a))
+        elif expr.op == "!":
+            a = self.eval_expr(expr.a)
+            value = 0 if a else 1
         elif expr.op == "&":
             value = self.eval_take_address(expr.a)
         else:  # pragma: no cover
             raise NotImplementedError(str(expr))
+        return value
+
+    def eval_ternop(self, expr):
+        """Evaluate the conditional operator 'a ? b : c'."""
+        if self.eval_expr(expr.a):
+            value = self.eval_expr(expr.b)
+        else:
+            value = self.eval_expr(expr.c)
         return value
 
     def eval_take_address(self, expr):
@@ -100,26 +127,71 @@ class ConstantExpressionEvaluator:
 
     def eval_binop(self, expr):
         """Evaluate binary operator."""
+        op = expr.op
+
+        # Logical operators evaluate their right operand only when needed:
+        if op == "&&":
+            if self.eval_expr(expr.a):
+                return 1 if self.eval_expr(expr.b) else 0
+            return 0
+        elif op == "||":
+            if self.eval_expr(expr.a):
+                return 1
+            return 1 if self.eval_expr(expr.b) else 0
+
         lhs = self.eval_expr(expr.a)
         rhs = self.eval_expr(expr.b)
-        op = expr.op
 
         op_map = {
             "+": lambda x, y: x + y,
             "-": lambda x, y: x - y,
             "*": lambda x, y: x * y,
+            "<": lambda x, y: int(x < y),
+            ">": lambda x, y: int(x > y),
+            "<=": lambda x, y: int(x <= y),
+            ">=": lambda x, y: int(x >= y),
+            "==": lambda x, y: int(x == y),
+            "!=": lambda x, y: int(x != y),
         }
 
-        # Ensure division is integer division:
-        if expr.typ.is_integer:
-            op_map["/"] = lambda x, y: x // y
-            op_map[">>"] = lambda x, y: x >> y
-            op_map["<<"] = lambda x, y: x << y
+        if expr.typ.is_integer_or_enum:
+            op_map["/"] = self.integer_division
+            op_map["%"] = self.integer_remainder
+            op_map[">>"] = lambda x, y: x >> self.shift_amount(expr, y)
+            op_map["<<"] = lambda x, y: x << self.shift_amount(expr, y)
             op_map["|"] = lambda x, y: x | y
             op_map["&"] = lambda x, y: x & y
             op_map["^"] = lambda x, y: x ^ y
+            if op in ["/", "%"] and rhs == 0:
+                self.context.error(
+                    "Division by zero in constant expression", expr.location
+                )
         else:
             op_map["/"] = lambda x, y: x / y
 
+        if op not in op_map:
+            self.context.error(
+                f"Operator '{op}' is not allowed in a constant expression",
+                expr.location,
+            )
+
         value = op_map[op](lhs, rhs)
-        return value
+        return self.to_integer_type(expr.typ, value)
+
+    @staticmethod
+    def integer_division(x, y):
+        """Integer division as C defines it: truncation towards zero."""
+        quotient = abs(x) // abs(y)
+        return quotient if (x < 0) == (y < 0) else -quotient
+
+    @classmethod
+    def integer_remainder(cls, x, y):
+        """The remainder has the sign of the dividend: (x/y)*y + x%y == x."""
+        return x - y * cls.integer_division(x, y)
+
+    def shift_amount(self, expr, amount):
+        """Check the shift amount (its range is not defined by C)."""
+        bits = 8 * self.context.sizeof(expr.typ)
+        if amount < 0:
+            self.context.error("Negative shift amount", expr.location)
+        return min(amount, bits)
